@@ -495,7 +495,9 @@ func running(st manager.VerifState) map[string]bool {
 
 // sync waits until every running job has reached its gate and returns the state.
 func (h *harness) sync() (manager.VerifState, error) {
-	deadline := time.Now().Add(60 * time.Second)
+	// (a job reaches its gate within milliseconds; a job that is marked running but never arrives — work that was
+	// left behind without a job — is reported after 20 s)
+	deadline := time.Now().Add(20 * time.Second)
 	for {
 		st := h.mgr.VerifDump()
 		ok := true
@@ -857,6 +859,49 @@ func (h *harness) checkOracles(st manager.VerifState) {
 		sv.Release()
 		h.mgr.VerifDump()
 	}
+	// --- C06 (tags shown for the streams of a search page): a search that returns only SOME streams, with all tags
+	//     prefetched for the page, shows for each returned stream exactly the tags whose definition holds for it
+	//     (a tag that relates a stream to OTHER streams must be decided with what holds for those, on or off the page)
+	if len(st.Tags) != 0 && len(byID) >= 2 {
+		allDetermined := true
+		wantTags := map[uint64][]string{}
+		for id, ft := range byID {
+			for _, t := range st.Tags {
+				r, ok := h.evalDef(t.Definition, id, ft, 0)
+				if !ok {
+					allDetermined = false
+				}
+				if r {
+					wantTags[id] = append(wantTags[id], t.Name)
+				}
+			}
+			sort.Strings(wantTags[id])
+		}
+		if allDetermined {
+			for id := range byID {
+				pv := h.mgr.GetView()
+				q, err := query.Parse(fmt.Sprintf("id:%d", id))
+				if err == nil {
+					_, _, _, err = pv.SearchStreams(context.Background(), q, func(sc manager.StreamContext) error {
+						got, err := sc.AllTags()
+						if err != nil {
+							return err
+						}
+						sort.Strings(got)
+						if strings.Join(got, ",") != strings.Join(wantTags[sc.Stream().ID()], ",") {
+							h.complain("C06", "search id:%d with all tags prefetched shows tags %v for stream %d, evaluation of the definitions gives %v", id, got, sc.Stream().ID(), wantTags[sc.Stream().ID()])
+						}
+						return nil
+					}, manager.Limit(100, 0), manager.PrefetchAllTags())
+					if err != nil {
+						h.complain("C06", "search id:%d with prefetch fails: %v", id, err)
+					}
+				}
+				pv.Release()
+			}
+			h.mgr.VerifDump()
+		}
+	}
 	// --- C11 (under scheduled job completions): the tag graph stays well-formed and the
 	//     referenced-by bookkeeping mirrors the definitions
 	{
@@ -1123,6 +1168,17 @@ func (h *harness) step(line string) (event, error) {
 			return nil, err
 		}
 		ev["name"] = p.name
+	case "badpcap":
+		// a file in the capture directory that cannot be parsed as a capture
+		if h.pcaps[f[1]] != nil {
+			ev["noop"] = true
+			break
+		}
+		h.pcaps[f[1]] = &pcapDef{name: f[1]}
+		if err := os.WriteFile(filepath.Join(pdir, f[1]), []byte("this is not a capture file\n"), 0644); err != nil {
+			return nil, err
+		}
+		ev["op"], ev["name"] = "pcap", f[1]
 	case "import":
 		names := []string{}
 		for _, n := range f[1:] {
@@ -1177,10 +1233,21 @@ func (h *harness) step(line string) (event, error) {
 		// wait until the completion closure has run: the job is no longer running, or a successor
 		// of the same kind has reached the gate
 		deadline := time.Now().Add(60 * time.Second)
+		stalledSince := time.Time{}
 		for {
 			st := h.mgr.VerifDump()
 			if !running(st)[job] || h.g.arrived(job) > arr0[job] {
 				break
+			}
+			if job == "import" && len(st.ImportJobs) < len(before.ImportJobs) {
+				// the completion has run (it took captures off the queue) but captures are still queued: a follow-up
+				// job must have been started by it — give it a moment to reach its gate
+				if stalledSince.IsZero() {
+					stalledSince = time.Now()
+				} else if time.Since(stalledSince) > 4*time.Second {
+					h.complain("C09", "captures %v are queued but no import job is running (the completion of the previous job did not start one)", st.ImportJobs)
+					return nil, fmt.Errorf("captures queued but no import job is running")
+				}
 			}
 			if time.Now().After(deadline) {
 				return nil, fmt.Errorf("completion of %s job did not run", job)
@@ -1348,6 +1415,15 @@ func (h *harness) step(line string) (event, error) {
 			processed := len(before.ImportJobs) - len(st.ImportJobs)
 			if processed < 0 || processed > len(h.queued) {
 				return nil, fmt.Errorf("import queue grew during completion")
+			}
+			// the builder may have processed only a prefix of its batch (a file that is not a capture stops it):
+			// the prediction is for exactly the captures it reports as processed
+			{
+				newOnes := map[string]bool{}
+				for _, n := range h.queued[:processed] {
+					newOnes[n] = true
+				}
+				h.pendingTruth = truthOf(h.pcaps, append(append([]string(nil), h.done...), h.queued[:processed]...), newOnes)
 			}
 			h.done = append(h.done, h.queued[:processed]...)
 			h.queued = h.queued[processed:]
@@ -1786,6 +1862,13 @@ func gen(seed uint64, n int, w io.Writer) {
 		}
 		if r.Chance(1, 12) {
 			parts = nil // a capture with a valid header and no packets (an idle rotation interval)
+		}
+		if r.Chance(1, 14) {
+			// a file that is not a capture at all (an interrupted upload): inside a batch the builder processes the
+			// captures before it and leaves it to the next job, which skips it
+			fmt.Fprintf(w, "badpcap %s\n", name)
+			pending = append(pending, name)
+			return
 		}
 		fmt.Fprintf(w, "pcap %s %s\n", name, strings.Join(parts, " "))
 		pending = append(pending, name)
